@@ -30,3 +30,13 @@ Print Assumptions C03_census_sees_only_comments.
 Theorem C03_census_compositional : forall a b, Census.census (a ++ b) = Census.census a ++ Census.census b.
 Proof. exact TriviaProof.census_app. Qed.
 Print Assumptions C03_census_compositional.
+
+(* L0 - the whole-formatter model on a fragment of Lua 5.1 with comments at statement level (Fmt0.v), tied to the binary
+   byte for byte on every run: the comments of the output are exactly the comments of the program - those in front of
+   its statements, behind them, and dangling at the end of its blocks - each once, in source order, with only trailing
+   blanks trimmed *)
+From SV Require Fmt0 Fmt0Proof.
+Theorem C03_L0_comments_of_the_output_are_those_of_the_program : forall c p,
+  Census.census (Fmt0.pprog c (Fmt0.nprog p)) = Fmt0Proof.lc (Fmt0Proof.coms_b p).
+Proof. exact Fmt0Proof.format0_comments_exact. Qed.
+Print Assumptions C03_L0_comments_of_the_output_are_those_of_the_program.
